@@ -17,6 +17,7 @@
 import YashModel.Proc.Steps
 import YashModel.Proc.Awaited
 import YashModel.Proc.Ops
+import YashModel.Proc.PipelineMeasure
 import YashModel.Proc.Spec
 namespace YashModel.Proc
 
@@ -274,5 +275,113 @@ theorem pipefail_rule (pf : Bool) (sts : List Nat) : pipeStatus pf sts = Spec.pi
 
 example : pipeStatus true [3, 0, 7, 0] = 7 ∧ pipeStatus false [3, 0, 7, 0] = 0 ∧ pipeStatus true [0, 0] = 0 := by
   decide
+
+/-! ### stages of a pipeline that block on I/O with each other (`Pipeline.lean`)
+
+  The theorems above take "every child ends after finitely many steps" as given.  For the stages of a
+  pipeline that is a theorem of its own, and it holds only under descriptor hygiene. -/
+
+/-- ★ Descriptor hygiene — "after `move_to_stdin_stdout` a stage holds exactly its stdin reader and its
+    stdout writer": pipe `j` is held for reading by stage `j+1` only and for writing by stage `j` only —
+    holds for the pipeline as `execute_multi_command_pipeline` sets it up and is preserved by every step
+    of every stage (nobody opens or passes on a descriptor; a stage that ends drops what it holds). -/
+theorem hygiene_invariant (c : PCfg) :
+    (∀ progs : List SProg, progs ≠ [] → Hyg c (mkPipeline progs)) ∧
+    (∀ (s s' : PSys) (i : Nat), Hyg c s → stageStep c s i = some s' → Hyg c s') :=
+  ⟨hyg_init c, fun _ _ _ h hs => hyg_step h hs⟩
+
+/-- ★ No deadlock among the stages: in every state reachable from a hygienic one in which some stage is
+    still alive, some stage can move — for every number of stages, every mix of stage programs
+    (`spew`, `take`, `drain`, `cat`, `st`), every payload, every capacity with `1 ≤ PIPE_BUF ≤ PIPE_SIZE`.
+    (The last live stage writes into a pipe nobody holds for reading any more — EPIPE, not a block — and a
+    stage blocked in a read has a live writer upstream whose pipe is empty.) -/
+theorem pipeline_no_deadlock {c : PCfg} {s t : PSys} (hv : c.Valid) (h : Hyg c s)
+    (hrun : PSteps c s t) (hlive : t.done = false) : ∃ i t', stageStep c t i = some t' := by
+  obtain ⟨k, hk⟩ := not_done_alive hlive
+  exact pipeline_not_stuck hv (hyg_steps hrun h) hk
+
+/-- ★ the writer gets EPIPE once the only reader of its pipe has ended -/
+theorem writer_gets_epipe {c : PCfg} {s : PSys} (h : Hyg c s) {i n : Nat} {p : Pipe}
+    (hp : s.pipes[i]? = some p) (hdead : s.alive (i + 1) = false) : sysWrite c s i n = .epipe :=
+  write_epipe h hp hdead
+
+/-- every system call of every stage strictly decreases `pmeas` (each byte is charged for every position
+    it has not passed yet, each live stage once) -/
+theorem pipeline_step_decreases {c : PCfg} {s s' : PSys} {i : Nat} (hv : c.Valid)
+    (hs : stageStep c s i = some s') : pmeas s' < pmeas s :=
+  pmeas_step hv hs
+
+theorem pipeline_run_bounded {c : PCfg} {n : Nat} {s t : PSys} (hv : c.Valid)
+    (h : PStepsN c n s t) : n + pmeas t ≤ pmeas s := by
+  induction h with
+  | refl => simp
+  | tail i _ hs ih => have := pmeas_step hv hs; omega
+
+/-- ★ `pipeline_terminates`: from a hygienic state every maximal schedule of the stages ends with every
+    stage ended (so every stage is a child that "takes finitely many steps and ends", which is what
+    `wait_progress`, `reaped_once` and `awaited_reaped` assume of the children): a state with all stages
+    ended is reachable, every run is at most `pmeas s` steps long (`pipeline_run_bounded`), and a
+    reachable state in which no stage can move has all stages ended. -/
+theorem pipeline_terminates {c : PCfg} {s : PSys} (hv : c.Valid) (h : Hyg c s) :
+    (∃ t, PSteps c s t ∧ t.done = true) ∧
+    (∀ t, PSteps c s t → (∀ i, stageStep c t i = none) → t.done = true) := by
+  constructor
+  · have key : ∀ n (u : PSys), pmeas u ≤ n → Hyg c u → ∃ t, PSteps c u t ∧ t.done = true := by
+      intro n
+      induction n with
+      | zero =>
+        intro u hm hu
+        cases hd : u.done with
+        | true => exact ⟨u, .refl u, hd⟩
+        | false =>
+          obtain ⟨k, hk⟩ := not_done_alive hd
+          obtain ⟨i, u', hs⟩ := pipeline_not_stuck hv hu hk
+          have := pmeas_step hv hs; omega
+      | succ n ih =>
+        intro u hm hu
+        cases hd : u.done with
+        | true => exact ⟨u, .refl u, hd⟩
+        | false =>
+          obtain ⟨k, hk⟩ := not_done_alive hd
+          obtain ⟨i, u', hs⟩ := pipeline_not_stuck hv hu hk
+          have hlt := pmeas_step hv hs
+          obtain ⟨t, ht, hdt⟩ := ih u' (by omega) (hyg_step hu hs)
+          exact ⟨t, PSteps.head i hs ht, hdt⟩
+    exact key _ s (Nat.le_refl _) h
+  · intro t ht hstuck
+    cases hd : t.done with
+    | true => rfl
+    | false =>
+      obtain ⟨i, t', hs⟩ := pipeline_no_deadlock hv h ht hd
+      rw [hstuck i] at hs; simp at hs
+
+/-- non-vacuity with the constants of the virtual system: `spew 4096 | st 7` ends with statuses 1 (EPIPE)
+    and 7, `spew 3000 | cat | drain` with 0, 0, 0, under these schedules -/
+example :
+    (prun PCfg.real 100 [1, 0, 1] (mkPipeline [.spew 4096, .idle 7])).statuses = [1, 7] ∧
+    (prun PCfg.real 100 [0, 1, 2, 1] (mkPipeline [.spew 3000, .cat 0, .drain])).statuses = [0, 0, 0] ∧
+    PCfg.real.Valid := by
+  refine ⟨by decide, by decide, by simp [PCfg.Valid, PCfg.real]⟩
+
+/-- Hygiene is necessary: if a stage keeps the read end of the pipe it writes to (what the child does
+    when `move_to_stdin_stdout` does not close it), `spew 10 | st 7` over a 4-byte pipe deadlocks — the
+    reader has ended, the pipe is full, the writer still counts as a reader of its own pipe and never
+    gets EPIPE. -/
+theorem hygiene_necessary :
+    let c : PCfg := { cap := 4, pbuf := 2, chunk := 4 }
+    let t : PSys :=
+      { stages := [{ prog := .spew 6 }, { prog := .idle 7, exit := some 7 }],
+        pipes := [{ content := 4, readers := [1, 0], writers := [0] }] }
+    PSteps c (mkPipeline [.spew 10, .idle 7] true) t ∧ t.done = false ∧ ∀ i, stageStep c t i = none := by
+  intro c t
+  refine ⟨?_, by decide, ?_⟩
+  · have h := prun_steps c 10 [] (mkPipeline [.spew 10, .idle 7] true)
+    have e : prun c 10 [] (mkPipeline [.spew 10, .idle 7] true) = t := by rfl
+    rw [e] at h; exact h
+  · intro i
+    match i with
+    | 0 => rfl
+    | 1 => rfl
+    | i + 2 => simp [stageStep, t]
 
 end YashModel.Proc
